@@ -162,6 +162,40 @@ func runC15(c *Ctx) {
 		}
 	}
 	r.Check("C15.separator-agreement", "EncodeStack/name = prefix + newline + frames", m.Pos(enc.Pos()), okPrefix, "the counter name is everything before the first newline")
+	// the frames joined are all the frames: Join's argument grows by append only (never resliced,
+	// filtered or replaced), so dropping frames can only happen in the marked truncation of the name
+	for _, cs := range callsIn(enc, "strings.Join") {
+		var bad string
+		seen := map[ssa.Value]bool{}
+		var visit func(v ssa.Value)
+		visit = func(v ssa.Value) {
+			if seen[v] || bad != "" {
+				return
+			}
+			seen[v] = true
+			switch x := v.(type) {
+			case *ssa.Phi:
+				for _, e := range x.Edges {
+					visit(e)
+				}
+			case *ssa.Const:
+				if !x.IsNil() {
+					bad = describe(v)
+				}
+			case *ssa.MakeSlice:
+			case *ssa.Call:
+				if base, _, ok := appendedElems(x); ok {
+					visit(base)
+				} else {
+					bad = shortDesc(describe(v))
+				}
+			default:
+				bad = shortDesc(describe(v))
+			}
+		}
+		visit(cs.Common().Args[0])
+		r.Check("C15.separator-agreement", "EncodeStack/joins every encoded frame", m.Pos(cs.Pos()), bad == "", "the joined slice must be built by append alone; found "+bad)
+	}
 	r.Analysed["separator_sites"] = sepSites
 	// createReport and ReadFile classify with IsStackCounter
 	for _, spec := range [][2]string{{"internal/upload", "uploader.createReport"}, {"internal/counter", "ReadFile"}} {
